@@ -355,6 +355,120 @@ def _guards_all_writes(f: FuncInfo, ifnode: ast.If) -> bool:
     return bool(ws) and all(any(w.node is x for x in ast.walk(ifnode)) for w in ws)
 
 
+def _closure(repo, f: FuncInfo) -> list[FuncInfo]:
+    """f plus what it reaches through self.<m>() calls (its own class / MRO) and calls of module-level functions"""
+    seen = {f.qualname: f}
+    stack = [f]
+    while stack:
+        g = stack.pop()
+        for c in calls_in(g.node):
+            m = None
+            if isinstance(c.func, ast.Attribute) and isinstance(c.func.value, ast.Name) and c.func.value.id == "self" and f.cls is not None:
+                m = f.cls.find_method(c.func.attr)
+            elif isinstance(c.func, ast.Name):
+                tgt = repo.resolve_name(g.module, c.func.id)
+                if isinstance(tgt, FuncInfo):
+                    m = tgt
+            if m is not None and m.qualname not in seen and not m.is_abstract:
+                seen[m.qualname] = m
+                stack.append(m)
+    return list(seen.values())
+
+
+def r6(ctx: Context, prs, sites) -> None:
+    import json
+
+    from ..flow import aliased_store_mutations
+    from ..report import VERIF
+
+    ctx.rule("R6", "effect agreement: an operation changes the in-memory store (direct write, mutation through a local alias, class-level registry) if and only if its SQLite sibling executes a non-read statement - a query that mutates on one backend only is not equivalent")
+    spec = json.loads((VERIF / "spec" / "stores.json").read_text())
+    not_store = set(spec["not_store"])
+    read_verbs = tuple(spec["sql_read_verbs"])
+    n = 0
+    for base, name, decl, a, s in prs:
+        mm: list[tuple[str, str]] = []
+        for g in _closure(ctx.repo, a):
+            for w in mem_store_writes(g.node):
+                if w.attr not in not_store:
+                    mm.append((g.loc(w.node), f"{g.name} writes self.{w.attr} ({w.how})"))
+            for node, nm, attr in aliased_store_mutations(g.node):
+                if attr not in not_store:
+                    mm.append((g.loc(node), f"{g.name} mutates self.{attr} through the local alias `{nm}`"))
+            for x in walk_no_nested(g.node):
+                if isinstance(x, (ast.Assign, ast.Delete)):
+                    for t in x.targets:
+                        if isinstance(t, ast.Subscript) and isinstance(t.value, ast.Attribute) and isinstance(t.value.value, ast.Name) and a.cls is not None and t.value.value.id == a.cls.name:
+                            mm.append((g.loc(x), f"{g.name} writes the class-level registry {ast.unparse(t.value)}"))
+        sm: list[tuple[str, str]] = []
+        cl = _closure(ctx.repo, s)
+        for x in sites:
+            owner = x.func
+            while owner.parent_func is not None:
+                owner = owner.parent_func
+            if owner in cl:
+                t = " ".join(x.template.upper().split())
+                if x.verb.startswith(read_verbs) or x.verb == "?" or t.startswith(("BEGIN", "PRAGMA", "COMMIT")):
+                    continue
+                sm.append((x.where, f"{owner.name} executes {x.verb}"))
+        n += 1
+        ok = bool(mm) == bool(sm)
+        if ok:
+            ctx.ok("R6", f"{base.name}.{name}::effect-agreement", a.loc(), "both change the store" if mm else "both read-only")
+        else:
+            where, why = (mm or sm)[0]
+            side = "in-memory" if mm else "SQLite"
+            ctx.fail("R6", f"{base.name}.{name}::effect::mem={'writes' if mm else 'read-only'}::sqlite={'writes' if sm else 'read-only'}", where, f"only the {side} implementation changes the store: {why}")
+    ctx.floor("R6", "pairs compared", n, 70)
+
+
+def r7(ctx: Context) -> None:
+    ctx.rule("R7", "multi-valued indexes (attributes annotated dict[K, set|list[V]]): removing a whole key whose expression is not one of the operation's own parameters (a key reached by iterating an entity's references) is allowed only inside `if not self.<index>[key]:` - otherwise the other members of that key vanish, which a relational DELETE by member column never does")
+    n = 0
+    for b in BASES:
+        base = ctx.repo.cls(b)
+        for c in [x for x in base.all_subclasses() if x.name.startswith("Mem")]:
+            multi: set[str] = set()
+            for m in c.methods.values():
+                for x in walk_no_nested(m.node):
+                    if isinstance(x, ast.AnnAssign) and isinstance(x.target, ast.Attribute) and isinstance(x.target.value, ast.Name) and x.target.value.id == "self":
+                        ann = ast.unparse(x.annotation)
+                        if ann.startswith(("dict[", "defaultdict[", "OrderedDict[")) and any(k in ann.split(",", 1)[-1] for k in ("set[", "list[")):
+                            multi.add(x.target.attr)
+            for m in c.methods.values():
+                if m.name in ("purge", "_purge", "__init__"):
+                    continue
+                params = set(m.params)
+                pm = {id(ch): p for p in ast.walk(m.node) for ch in ast.iter_child_nodes(p)}
+                for x in walk_no_nested(m.node):
+                    key = None
+                    attr = None
+                    if isinstance(x, ast.Delete):
+                        for t in x.targets:
+                            if isinstance(t, ast.Subscript) and self_attr(t) in multi and isinstance(t.value, ast.Attribute):
+                                key, attr = t.slice, t.value.attr
+                    elif isinstance(x, ast.Call) and isinstance(x.func, ast.Attribute) and x.func.attr == "pop" and isinstance(x.func.value, ast.Attribute) and self_attr(x.func.value) in multi and isinstance(x.func.value.value, ast.Name) and x.args:
+                        key, attr = x.args[0], x.func.value.attr
+                    if key is None:
+                        continue
+                    n += 1
+                    roots = names_in(key)
+                    own_key = bool(roots) and roots <= params
+                    guarded = False
+                    cur = pm.get(id(x))
+                    child = x
+                    while cur is not None and cur is not m.node:
+                        if isinstance(cur, ast.If) and any(child is b_ or any(child is y for y in ast.walk(b_)) for b_ in cur.body):
+                            t = cur.test
+                            if isinstance(t, ast.UnaryOp) and isinstance(t.op, ast.Not) and isinstance(t.operand, ast.Subscript) and self_attr(t.operand) == attr and ast.unparse(t.operand.slice) == ast.unparse(key):
+                                guarded = True
+                        child = cur
+                        cur = pm.get(id(cur))
+                    ok = own_key or guarded
+                    ctx.add("R7", f"{m.qualname}::whole-key-removal::{attr}", ok, m.loc(x), "" if ok else f"`{ast.unparse(x)[:70]}` drops every member stored under a key that was reached through another entity's references: members belonging to other entities disappear (the SQLite sibling deletes by member column only)")
+    ctx.floor("R7", "whole-key removals on multi-valued indexes", n, 4)
+
+
 def run(ctx: Context) -> None:
     sites = sqlmini.sites(ctx.repo)
     prs = pairs(ctx)
@@ -364,6 +478,8 @@ def run(ctx: Context) -> None:
     r3(ctx, prs, sites)
     r4(ctx, sites)
     r5(ctx, prs, sites)
+    r6(ctx, prs, sites)
+    r7(ctx)
     ctx.exhaustive = True
     ctx.not_decided += [
         "equivalence over operation sequences and agreement with an executable reference model (behavioural)",
